@@ -76,6 +76,31 @@ def generate(rng, tier):
             geos.append((rng.randint(1, 4), h, w))
     for (d, h, w) in geos:
         cs += card_cases(rng, d, h, w, full=(tier == "quick" and w * h <= 12) or (tier == "thorough" and rng.random() < 0.05))
+    # several rounds asked on one verifier in arbitrary order (with repeats, going back, skipping ahead)
+    for _ in range(60 if tier == "quick" else 1500):
+        w = rng.randint(1, 16); h = rng.randint(1, min(16, 255 // w)); count = rng.randint(1, w * h)
+        seed = rng.choice([0, 1, rng.getrandbits(64), (w * h) * rng.getrandbits(40)])
+        sel = pyref.mc_coordinates(w, h, count, seed)
+        order = [rng.randrange(0, min(count + 2, 256)) for _ in range(rng.randint(1, 12))]
+        if rng.random() < 0.5: order = list(range(count))[::-1][:12] + order
+        exp = " ".join(("%d:%d" % (sel[r] % w, sel[r] // w)) if r < count else "none" for r in order)
+        cs.append(Case("mc.coordseq %d %d %d %d %s %s" % (count, h, seed, w, rbytes(rng, 40).hex(), ",".join(map(str, order))), "coords-any-order-one-verifier", exp + " ~0"))
+    # cards whose cells hold arbitrary byte values (from_data accepts any bytes): the proof is over the entered bytes as they are
+    for _ in range(40 if tier == "quick" else 600):
+        d, w = rng.randint(1, 3), rng.randint(1, 8); h = rng.randint(1, 8)
+        n = w * h
+        data = bytes(rng.choice([rng.randrange(256), rng.randint(0x30, 0x39), rng.randint(0, 9)]) for _ in range(d * n))
+        cells = [data[i * d:(i + 1) * d] for i in range(n)]
+        K = rbytes(rng, 40); count = rng.randint(1, n); seed = rng.getrandbits(64)
+        sel = pyref.mc_coordinates(w, h, count, seed)
+        entered = b"".join(cells[i] for i in sel)
+        proof = pyref.mc_proof(seed, K, entered)
+        pre = "%d %d %d %s" % (d, h, w, data.hex())
+        cs.append(Case("mc.proof %d %d %d %d %s %s" % (count, h, seed, w, K.hex(), hx(entered)), "arbitrary-bytes-client-proof", "ok %s ~0" % proof.hex()))
+        cs.append(Case("mc.verify %s %d %d %s %s" % (pre, count, seed, K.hex(), proof.hex()), "arbitrary-bytes-server-accepts", "1 ~0"))
+        j = rng.randrange(len(entered)); e2 = bytearray(entered); e2[j] = (e2[j] + rng.choice([48, 208, 1, 255])) & 0xff
+        if bytes(e2) != entered:
+            cs.append(Case("mc.verify %s %d %d %s %s" % (pre, count, seed, K.hex(), pyref.mc_proof(seed, K, bytes(e2)).hex()), "arbitrary-bytes-server-rejects-other", "0 ~0"))
     # MatrixCard::new with injected draws, incl. samples the rejection zone refuses
     for _ in range(40 if tier == "quick" else 1000):
         d, w = rng.randint(1, 4), rng.randint(1, 12); h = rng.randint(1, 12)
